@@ -1,7 +1,15 @@
 """Per-property manifest entries (source of MANIFEST.json, see tools_manifest.py)."""
-FIX_COMMITS = ["89657fc (C18 lroo uint8)"]
+FIX_COMMITS = ["89657fc (C18 lroo uint8)", "99b18da (C02 NaN/inf cells)"]
 NOT_APPLICABLE = {}
 CHECKS = {
+ "C01": dict(level="exploration",
+   text="Hypothesis-generated (n, y, w, lambda) incl. zero-weight runs and fractional weights. The decisive oracle is exact: ws2d's own code object executed on Fractions must equal Gaussian elimination on the dense normal equations (no tolerance). The compiled float64 result is then compared with that exact solution under a conditioning-aware forward bound and a backward-error bound evaluated in rationals. Sampled, not exhaustive.",
+   note="Trusts Python Fractions and numpy.linalg.cond; the literal 1e-6 of the float clause is demanded for kappa_2<=3e8, kappa*u-proportional beyond (unattainable otherwise).",
+   technique="property-based testing: Hypothesis generation against an exact-rational reference solve (differential) + error-bound predicates"),
+ "C02": dict(level="exploration",
+   text="Hypothesis-generated series x gap pattern x nine smoother configurations x 2..5 placeholder encodings (finite below/inside/above, 0, NaN, +-inf). Metamorphic oracle: bit-identical output and lambda across encodings; reference oracle: LAPACK curve fitted to valid cells only, compared under the rounding-tie rule at every cell; passthrough predicate below the valid-count thresholds. Sampled.",
+   note="Trusts LAPACK banded Cholesky as reference; tie/fragility rules of DESIGN 2.5/2.7; cases whose curve leaves int16 discarded (counted).",
+   technique="property-based testing: metamorphic relation over placeholder encodings + independent reference model"),
  "C18": dict(level="exploration",
    text="Complete enumeration of all binary series up to length 16 (20 thorough) through the compiled lroo gufunc and the accessor, all permutations of the stored time order for croo up to n=5 (7), plus Hypothesis-generated run-length-encoded series up to 1000 steps with runs beyond 255, against a plain run-length model. Exhaustive on the small domain, sampled beyond; absence is not established outside what was enumerated.",
    note="Trusts numpy/xarray/pandas input construction; croo claimed for 0/1 arrays with unique timestamps.",
